@@ -124,7 +124,7 @@ fn main() {
             std::panic::set_hook(Box::new(|_| {}));
             // watchdog: a request that does not come back (non-termination is a failing input)
             // ends the process with status 124 after reporting `= hang`
-            let limit: u64 = std::env::var("VERIF_REQ_TIMEOUT").ok().and_then(|x| x.parse().ok()).unwrap_or(30);
+            let limit: u64 = std::env::var("VERIF_REQ_TIMEOUT").ok().and_then(|x| x.parse().ok()).unwrap_or(60);
             std::thread::spawn(move || loop {
                 std::thread::sleep(std::time::Duration::from_millis(200));
                 let started = REQ_START.load(std::sync::atomic::Ordering::SeqCst);
